@@ -123,8 +123,11 @@ static inline uint64_t truncateMantissa(const uint64_t mantissa,
     const uint64_t rounding = 1ULL << (shift - 1);
     const uint64_t rounded = mantissa + rounding;
 
-    /* Shift down */
-    return rounded >> shift;
+    /* Shift down.  A mantissa of (nearly) all ones rounds up to 2^to_bits,
+     * which does not fit the to_bits field that gets stored: keep the largest
+     * representable mantissa instead of letting the carry wrap to zero. */
+    const uint64_t result = rounded >> shift;
+    return (result >> to_bits) ? (1ULL << to_bits) - 1 : result;
 }
 
 /* Expand mantissa from reduced precision back to full precision */
